@@ -272,6 +272,14 @@ func GenRegex(r *Rng) string {
 		return out
 	}
 	p := gen(2)
+	if r.Chance(1, 6) {
+		// a bare top-level alternation, possibly of plain literals
+		if r.Chance(1, 2) {
+			p = r.Pick([]string{"a", "b", "ab", "c", "bc", "d"}) + "|" + r.Pick([]string{"a", "b", "ba", "c", "cd", "-"})
+		} else {
+			p = p + "|" + gen(1)
+		}
+	}
 	if r.Chance(1, 8) {
 		p = "^" + p
 	}
@@ -424,7 +432,24 @@ func GenC05(seed, run uint64, ok CompileOK) *Scenario {
 	s.Docs = genDocs(r, r.Range(4, 22))
 	g := NewGen(r)
 	g.UseDocs(s.Docs)
-	s.Exprs = genExprs(g, r.Range(1, 4), ok, func() (*E, bool, bool) { return g.Top(), false, false })
+	regexRun := r.Chance(1, 4)
+	if regexRun {
+		// swarm: a run about concurrent use of the regular-expression functions:
+		// several expressions, each built around matches()/replace() with its own pattern
+		s.Exprs = genExprs(g, r.Range(2, 4), ok, func() (*E, bool, bool) {
+			pat := &E{Op: "str", S: r.Pick(g.Patterns[:11])}
+			subj := g.strArg(1)
+			if r.Chance(1, 2) {
+				subj = &E{Op: "str", S: r.Pick([]string{"a", "ab", "abc", "b", "ba", "aab", "1", ""})}
+			}
+			if r.Chance(1, 3) {
+				return &E{Op: "fn", S: "replace", Kids: []*E{subj, pat, {Op: "str", S: r.Pick([]string{"x", "", "[$1]", "-"})}}}, false, false
+			}
+			return &E{Op: "fn", S: "matches", Kids: []*E{subj, pat}}, false, false
+		})
+	} else {
+		s.Exprs = genExprs(g, r.Range(1, 4), ok, func() (*E, bool, bool) { return g.Top(), false, false })
+	}
 	nt := r.Range(2, 4)
 	// tasks collide on purpose: a "hot" (expression, document, context) that
 	// most operations use
@@ -434,7 +459,7 @@ func GenC05(seed, run uint64, ok CompileOK) *Scenario {
 		var ops []Step
 		for k := r.Range(1, 6); k > 0; k-- {
 			st := Step{E: hotE, D: hotD, C: hotC}
-			if r.Chance(1, 3) {
+			if r.Chance(1, 3) || regexRun {
 				st.E = r.Intn(len(s.Exprs))
 			}
 			if r.Chance(1, 4) {
